@@ -112,7 +112,10 @@ CHECKS = {
         "assumptions": ["pool state is injected through an overlay export shim (VerifUpstream); the module's own available() is cross-checked against the reference predicate"],
         "min_classes": {"quick": {"C10/policy/random_choose": 1500, "C10/policy/round_robin": 1500, "C10/multi-peer": 3000, "C10/sequence": 1500, "C10/provisioned": 4000, "C10/provisioned/max-fails-defaulted": 500}},
         "runs": [
-            {"name": "policies", "pkg": "./c10", "run": ".", "rapid_checks": {"quick": 8000, "thorough": 400000},
+            {"name": "policies", "pkg": "./c10", "run": ".", "tags": ["verif_proxy_build"], "rapid_checks": {"quick": 8000, "thorough": 400000},
+             "shards": {"quick": 1, "thorough": 16}, "timeout": {"quick": 600, "thorough": 7200}},
+            # pools provisioned by the handler itself; a package of its own that needs the peer-state accessors only
+            {"name": "provisioned", "pkg": "./c10p", "run": ".", "rapid_checks": {"quick": 8000, "thorough": 400000},
              "shards": {"quick": 1, "thorough": 16}, "timeout": {"quick": 600, "thorough": 7200}},
         ],
     },
